@@ -42,8 +42,12 @@ func c18Gen(c *Ctx) *c18Scenario {
 	allowInt := !sc.Batch || g.Chance(1, 4)
 	allowNewline := sc.Batch || g.Chance(1, 6)
 	t := int64(1e9) * int64(1+g.Intn(1000))
+	unordered := g.Chance(1, 3) // several writers: a point may be older than the one recorded before it
 	for i := 0; i < n; i++ {
 		t += []int64{0, 1, 1e6, 1e9, 3e9}[g.Intn(5)]
+		if unordered && !sc.Batch && i > 0 && g.Chance(1, 3) {
+			t -= []int64{2e9, 1, 5e8}[g.Intn(3)]
+		}
 		m := c19Msg{Batch: sc.Batch, Name: []string{"m", "cpu load", "é", "a,b"}[g.Intn(4)], TimeNs: t, Tags: map[string]string{}}
 		nt := g.Intn(4)
 		for k := 0; k < nt; k++ {
@@ -52,6 +56,7 @@ func c18Gen(c *Ctx) *c18Scenario {
 		}
 		if sc.Batch {
 			m.ByName = g.Chance(1, 4)
+			m.Newest1st = unordered && g.Bool()
 			m.Dims = simrt.Keys(m.Tags)
 			np := g.Range(1, 4)
 			for p := 0; p < np; p++ {
@@ -398,6 +403,7 @@ func init() {
 		ID:  "C18",
 		Run: runC18,
 		Rule: "case = 1-8/20 points or batches (all field types incl. int64 beyond 2^53, strings with quotes/commas/backslashes/unicode/newlines, tag keys and values with commas/equals/spaces, empty tag sets, db/rp with spaces) written with WritePointForRecording/WriteBatchForRecording and replayed with ReplayStreamFromIO/ReplayBatchFromIO under recTime on/off and the fast, wall (virtual) and externally driven set clock, with the recording read in seeded fragments; faulty configuration: slow collector, read error or truncation at a seeded byte offset; " +
+			"(round 3) in a third of the cases stream points may be older than the point recorded before them and batches may hold their points newest first; " +
 			"non-trivial = every case; distinct = distinct (scenario, interleaving signature) pairs",
 		Real:        []string{"replay.go (Write*ForRecording, Replay*FromIO, readPointsFromIO/readBatchFromIO, replay*FromChan)", "edge message codecs (point line protocol, bufferedBatchMessage JSON)", "kapacitor/clock (fast, wall, set clock on the virtual time)"},
 		Stub:        []string{"SimPipe as the recording's io.ReadCloser", "recording collectors", "services/replay (files on disk, HTTP API) is not run"},
